@@ -627,6 +627,9 @@ def run(model: RepoModel, rep, tier: str):
     rep.rule("C04.R11", "a goto keeps the edge to its own label: the fix-up takes the target from a scan over the collected labels, not from a "
                         "single-valued table keyed by the label name (names repeat in nested function literals)", 1)
     generic4.check_goto_label_scan(model, rep, "C04.R11")
+    from .. import generic7
+    rep.rule("C04.R12", "a switch without default can be left without entering a case: the switch statement joins the frontier its handler returns", 1)
+    generic7.check_switch_no_match_exit(model, rep, "C04.R12")
     # ------------------------------------------------------------------ R9 every clause of a control statement reaches the GIR
     from .. import generic2
     CONTROL_KEYS = ("if_stmt", "while_stmt", "dowhile_stmt", "for_stmt", "forin_stmt", "for_value_stmt", "try_stmt", "catch_clause", "switch_stmt",
@@ -704,6 +707,9 @@ C04_ADJUDICATED = {
 }
 
 MUTANTS = [
+    ("switch-without-no-match-exit", FILE,
+     lambda src: __import__("sa.mutate", fromlist=["x"]).text_replace(src, "            last_stmts.append(current_stmt)\n        return (last_stmts, boundary)", "            pass\n        return (last_stmts, boundary)"),
+     "C04.R12"),
     ("else-body-without-special-list", FILE,
      lambda src: __import__("sa.mutate", fromlist=["x"]).text_replace(src, "                last_stmts_of_else_body = self.analyze_block(else_body, last_stmts_of_else_body, global_special_stmts)",
                                                                      "                last_stmts_of_else_body = self.analyze_block(else_body, last_stmts_of_else_body)"),
